@@ -254,7 +254,7 @@ func histRun(env *sess.Env, sc *histScenario, cfg histCfg) histResult {
 			if op.Kind == "delete" || op.Kind == "replace" {
 				what = op.Kind
 			}
-			if op.Kind == "sweep" {
+			if op.Kind == "sweep" || op.Kind == "batch-delete" {
 				what = "delete"
 			}
 			// is the difference outside the operation's footprint?
@@ -270,6 +270,33 @@ func histRun(env *sess.Env, sc *histScenario, cfg histCfg) histResult {
 		}
 		cur = walked // equal modulo empty lists / order; adopt the store's view of those
 
+		if r.Walked {
+			// a second walk through the list selection that was kept across the edits
+			// must meet exactly the entries the list holds
+			if loc, ok := want.Resolve(op.At); ok && loc.List != nil {
+				seen := map[string]int{}
+				for _, k := range r.Walk {
+					seen[strings.Join(k, "\x00")]++
+				}
+				d := ""
+				for k, n := range seen {
+					if n > 1 {
+						d = fmt.Sprintf("entry %q is met %d times", strings.ReplaceAll(k, "\x00", ","), n)
+					}
+				}
+				if d == "" && len(r.Walk) != len(loc.List.Entries) {
+					d = fmt.Sprintf("%d entries met, the list holds %d", len(r.Walk), len(loc.List.Entries))
+				}
+				for _, e := range loc.List.Entries {
+					if d == "" && seen[strings.Join(e.Key(), "\x00")] == 0 {
+						d = fmt.Sprintf("entry %v is not met", e.Key())
+					}
+				}
+				if d != "" {
+					add(i, "walk-kept-selection", "walk-through-kept-list-selection:"+skey, "walking the list again through the selection kept across the edits: "+d)
+				}
+			}
+		}
 		if cfg.checkKeys {
 			if d := findAll(env, st, walked, before); d != "" {
 				add(i, "find-by-key", "find-by-key:"+skey, d)
